@@ -24,6 +24,7 @@ RULE = ("raw-peer command histories: all sequences of length <= 3 (quick) / 4 (t
 RULE += ("  " + 'Also: users with a non-default home_path; accounts whose connection limit is used up by other sessions (USER -> 530, session not identified); USER/PASS that do not complete a login leave the back end alone; re-USER plus further commands written in one burst (0-2 legitimate commands in front) with a user manager and/or back end that really suspend: everything behind the USER is refused and touches nothing.')
 RULE += ("  " + 'Also: `USER own, PASS pw, USER victim, ...` in one burst with a password check slower than any wait inside the server.')
 RULE += ("  " + 'Also (round 7): user table C, whose catch-all (anonymous) account has a password of its own: no name gets in without it.')
+RULE += ("  " + "Also (round 8): a transfer accepted under one login, USER for a password account (331), then the data connection: never the named account's file or tree.")
 ASSUMPTIONS = ["MemoryUserManager (the shipped user manager)", "authentication model = harness/ftpmodel.py USER/PASS rules"]
 REQUIRED_MONITORS = ["unauthenticated_command", "identity_probe", "backend_untouched"]
 ANCHOR_FUNCTIONS = ['server.py:Server.user', 'server.py:Server.pass_', 'server.py:ConnectionConditions.__call__.<locals>.wrapper']
